@@ -936,14 +936,18 @@ def gen_e2e(r, k):
     steps = []
     for _ in range(r.randint(8, 30)):
         z = [v["lo"] + (r.randrange(v["n"]) + r.choice([0.25, 0.5, 0.75])) * v["w"] for v in vars_]
+        for d_, v in enumerate(vars_):
+            if not v["per"] and r.random() < 0.12:      # just outside by a quarter bin, exactly on a boundary, far outside
+                z[d_] = r.choice([v["lo"] - 0.25 * v["w"], v["hi"] + 0.25 * v["w"], v["lo"], v["hi"], v["hi"] + 64.0, v["lo"] - 64.0])
         e = [V.dyadic(r, -8, 8) * fscale for _ in range(nd)]
         steps.append((z, e))
     ext = r.random() < 0.35          # extended-Lagrangian variables: CZAR estimator, <prefix>.czar.grad / .czar.pmf
     # files written by the outputFreq schedule during the run (no post_run) instead of at the end
     freq = r.random() < 0.3
+    ofreq = r.choice([3, 4, 5, 6, 7])          # outputFreq, not only powers of two
     if freq:
-        nst = len(steps) - (len(steps) % 4)
-        steps = steps[:max(4, nst)]
+        while len(steps) < 2 * ofreq + 1:
+            steps.append(steps[r.randrange(len(steps))])
     # force timing: same-step total forces, or lagged by one step (as in NAMD) with or without the engine including the
     # Colvars forces in what it reports.  With lagged forces force_bin is the previous step's bin: the trajectories visit a
     # random bin at every step, so bin != force_bin at most steps (2-D/3-D: a sample that lands in force_bin while the
@@ -951,12 +955,18 @@ def gen_e2e(r, k):
     same = r.random() < 0.4
     incl = r.random() < 0.5
     return {"id": "e2e%d" % k, "nd": nd, "vars": vars_, "steps": steps, "full": r.choice([1, 2, 4]), "apply": r.random() < 0.5,
-            "ext": ext, "freq": freq, "same": same, "incl": incl, "fscale": fscale,
+            "ext": ext, "freq": freq, "ofreq": ofreq, "same": same, "incl": incl, "fscale": fscale,
+            # absolute step numbers beyond 2^31, 2^32, 2^53 (vsim setstep) with schedules that are not powers of two
+            "step0": r.choice([0, 0, 2 ** 31 + 5, 2 ** 32 + 3, 2 ** 53 - 64, 2 ** 62 - 1000]),
+            "pabf_freq": r.choice([1, 3, 5]),
+            # a configuration that is rejected in the middle of the session (unknown variable), the run goes on
+            "badconf": r.random() < 0.2,
             # a custom `grid { ... }` block in the abf bias: half the width, one bin cut off at both ends (non-periodic variables)
             "gridblock": (not ext) and all(not v["per"] for v in vars_) and r.random() < 0.35,
             # entry points that rebuild or use the divergence: state file (text/binary) between two runs, inputPrefix,
             # projected ABF (integration at every step)
-            "flow": "plain" if (freq or ext) else r.choice(["plain", "plain", "restart-text", "restart-binary", "inputprefix", "pabf" if nd >= 2 else "plain"])}
+            "flow": "plain" if (freq or ext) else r.choice(["plain", "plain", "restart-text", "restart-binary", "restart-buffer", "restart-string",
+                                                                "inputprefix", "pabf" if nd >= 2 else "plain"])}
 
 
 def e2e_scenario(c):
@@ -991,24 +1001,33 @@ def e2e_scenario(c):
     head = ["natoms %d" % nd, "samestep %d" % (1 if c.get("same", True) else 0), "includecv %d" % (1 if c.get("incl", True) else 0),
             "temperature 300", "dt 1"]
     if c.get("freq"):
-        head += ["restartfreq 4"]
+        head += ["restartfreq %d" % c.get("ofreq", 4)]
+    first = (["setstep %d" % c["step0"]] if c.get("step0") else [])
+    def mid(lst):
+        """steps with, optionally, a rejected configuration in the middle"""
+        if not c.get("badconf") or len(lst) < 2:
+            return steps(lst)
+        h = len(lst) // 2
+        return steps(lst[:h]) + ["config EOF", "abf {", "  name rejected", "  colvars no_such_variable", "}", "EOF"] + steps(lst[h:])
     half = len(c["steps"]) // 2
-    if flow in ("restart-text", "restart-binary"):
+    if flow in ("restart-text", "restart-binary", "restart-buffer", "restart-string"):
         # a run, a state file, a fresh module that loads it (the divergence must be rebuilt from the loaded grids), a second run
-        L = head + ["prefix %s" % c["id"], "new"] + config() + steps(c["steps"][:half])
-        L += ["save %s %s.st" % ("binary" if flow == "restart-binary" else "text", c["id"]), "new"] + config() + ["load %s.st" % c["id"]]
+        L = head + ["prefix %s" % c["id"], "new"] + config() + first + mid(c["steps"][:half])
+        binary = flow in ("restart-binary", "restart-buffer")
+        loadcmd = {"restart-buffer": "loadbuf %s.st", "restart-string": "loadstr %s.st"}.get(flow, "load %s.st") % c["id"]
+        L += ["save %s %s.st" % ("binary" if binary else "text", c["id"]), "new"] + config() + [loadcmd]
         # (the step at which the state was saved is repeated after the load with the same coordinates, as an engine does:
         #  Colvars compares the recomputed values with the saved ones)
         L += steps(c["steps"][max(half - 1, 0):])
     elif flow == "inputprefix":
         # a first run writes <id>a.count/.grad; a second bias starts from them through inputPrefix and goes on
-        L = head + ["prefix %sa" % c["id"], "new"] + config() + steps(c["steps"][:half]) + ["postrun"]
+        L = head + ["prefix %sa" % c["id"], "new"] + config() + first + mid(c["steps"][:half]) + ["postrun"]
         L += ["prefix %s" % c["id"], "new"] + config(["  inputPrefix %sa" % c["id"]]) + steps(c["steps"][half:])
     elif flow == "pabf":
         # projected ABF: the surface is integrated at every step and the bias force is its finite-difference gradient
-        L = head + ["prefix %s" % c["id"], "new"] + config(["  pABFintegrateFreq 1"]) + steps(c["steps"])
+        L = head + ["prefix %s" % c["id"], "new"] + config(["  pABFintegrateFreq %d" % c.get("pabf_freq", 1)]) + first + mid(c["steps"])
     else:
-        L = head + ["prefix %s" % c["id"], "new"] + config() + steps(c["steps"])
+        L = head + ["prefix %s" % c["id"], "new"] + config() + first + mid(c["steps"])
     if not c.get("freq"):
         L.append("postrun")
     if nd >= 2:
@@ -1056,7 +1075,18 @@ def e2e(run, r, quick, exe=None, model=None):
             elif "CONFIG err=input" not in o:
                 run.violation("e2e:run", "unexpected outcome for the single-bin periodic configuration: %s" % o[-300:], rep)
             continue
-        if rc != 0 or ("POSTRUN err=ok" not in o and not c.get("freq")) or "CONFIG err=ok" not in o or "err=input" in o or "err=file" in o or "LOAD err=error" in o:
+        o_chk = o
+        if c.get("badconf"):
+            run.dist("e2e:rejected-configuration-mid-session")
+            o_chk = "\n".join(l for l in o.splitlines() if not (l.startswith("CONFIG err=") and "err=ok" not in l))
+        if c.get("step0"):
+            run.dist("e2e:first-step>=2^31")
+        if c.get("flow", "").startswith("restart"):
+            want_it = c.get("step0", 0) + max(len(c["steps"]) // 2 - 1, 0)
+            got = [l for l in o.splitlines() if l.startswith("LOAD ")]
+            if not got or ("it=%d" % want_it) not in got[0]:
+                run.violation("e2e:restart-step", "after loading the state (%s) the module is at %s, expected step %d" % (c["flow"], got[:1], want_it), rep)
+        if rc != 0 or ("POSTRUN err=ok" not in o and not c.get("freq")) or "CONFIG err=ok" not in o or "err=input" in o_chk or "err=file" in o_chk or "LOAD err=error" in o:
             run.violation("e2e:run", "the ABF scenario did not run to the end (rc=%d): %s" % (rc, (o + e)[-300:]), rep)
             continue
         dc = [l for l in o.splitlines() if l.startswith("DIVCHECK ")]
